@@ -992,22 +992,22 @@ class Engine:
     def eval_ListComp(self, node, env):
         from .builtins import comprehension
         op = self._opaque(node)
-        return op(self) if op else comprehension(self, node, env, 'list')
+        return (op(self, env) if getattr(op, 'wants_env', False) else op(self)) if op else comprehension(self, node, env, 'list')
 
     def eval_GeneratorExp(self, node, env):
         from .builtins import comprehension
         op = self._opaque(node)
-        return op(self) if op else comprehension(self, node, env, 'gen')
+        return (op(self, env) if getattr(op, 'wants_env', False) else op(self)) if op else comprehension(self, node, env, 'gen')
 
     def eval_SetComp(self, node, env):
         from .builtins import comprehension
         op = self._opaque(node)
-        return op(self) if op else comprehension(self, node, env, 'set')
+        return (op(self, env) if getattr(op, 'wants_env', False) else op(self)) if op else comprehension(self, node, env, 'set')
 
     def eval_DictComp(self, node, env):
         from .builtins import comprehension
         op = self._opaque(node)
-        return op(self) if op else comprehension(self, node, env, 'dict')
+        return (op(self, env) if getattr(op, 'wants_env', False) else op(self)) if op else comprehension(self, node, env, 'dict')
 
     def eval_Call(self, node, env):
         # spec special forms
